@@ -19,8 +19,8 @@ func debugCmd(args []string) {
 	bi := buildHarness(harnessByName(p.Harness))
 	var ref *RunResult
 	for i := 0; i < n; i++ {
-		spec := Spec{Prop: p.ID, Tier: envOr("VERIF_TIER", "quick"), Seed: seedEnv(), First: run, Runs: 1, KeepLog: true, Samples: 1, MaxSteps: p.MaxSteps, Params: p.Params}
-		br, err := runBatch(bi, p, spec, 5*time.Minute)
+		spec := Spec{Prop: p.ID, Tier: envOr("VERIF_TIER", "quick"), Seed: seedEnv(), First: run, Runs: 1, KeepLog: true, Samples: 1, MaxSteps: p.MaxSteps, RunWallS: p.RunWallS, Params: p.Params}
+		br, err := runBatch(bi, p, spec, 5*time.Minute+time.Duration(p.RunWallS)*time.Second)
 		if err != nil && br == nil {
 			infra("%v", err)
 		}
